@@ -716,6 +716,179 @@ def rule_f_kernel_sum_kept(ctx, fns):
     return n
 
 
+def rule_g_influence_ranges_dual(ctx, units):
+    """A convolution y[i] = sum_k K[k] x[i-k] spreads input index j over outputs j+k_min .. j+k_max, and output i gathers inputs
+    i-k_max .. i-k_min.  The N-dimensional separable driver asks each 1D filter which input slices influence an output range
+    (get_influencing_indices) and skips the others; so for every filter class the two range functions must be DUAL: if the influenced
+    range of [a, b] is [a + A, b + B] then the influencing range of [a, b] is [a - B, b - A] (closed-form algebra over the range
+    expressions, through helpers and ?: alternatives).  A pair that is dual only for symmetric kernel ranges drops contributing slices
+    for the others (seed C19-4)."""
+    import sympy
+
+    RULE = "C19.g-influence-ranges-dual"
+    MIN, MAX = sympy.Symbol("MIN"), sympy.Symbol("MAX")
+
+    class _No(Exception):
+        pass
+
+    def resolve(node, bind):
+        node = node.strip()
+        while node.k == "DeclRefExpr" and node.get("dk") == "param" and node.get("d") in bind:
+            node = bind[node.get("d")].strip()
+        return node
+
+    def ev(node, bind, rng):
+        node = resolve(node, bind)
+        k = node.k
+        if k == "IntegerLiteral":
+            return sympy.Integer(node.get("v"))
+        if k == "BinaryOperator" and node.op in ("+", "-"):
+            a, b = ev(node.c[0], bind, rng), ev(node.c[1], bind, rng)
+            return a + b if node.op == "+" else a - b
+        if k == "UnaryOperator" and node.op == "-":
+            return -ev(node.c[0], bind, rng)
+        if k == "CXXMemberCallExpr":
+            short = (node.callee or "").split("::")[-1]
+            if short in ("get_min_index", "get_max_index") and node.call_object() is not None:
+                o = resolve(node.call_object(), bind)
+                if o.k == "DeclRefExpr" and o.get("dk") == "param" and o.get("d") == rng:
+                    return MIN if short == "get_min_index" else MAX
+                return sympy.Symbol(("kmin:" if short == "get_min_index" else "kmax:") + key(o, True))
+        raise _No("expression `%s`" % key(node, True)[:80])
+
+    def ranges(node, bind, rng, fns, depth=0):
+        """alternatives [(lo, hi)] the range expression can evaluate to"""
+        node = resolve(node, bind)
+        if depth > 5:
+            raise _No("helper depth")
+        if node.k == "DeclRefExpr" and node.get("dk") == "param" and node.get("d") == rng:
+            return [(MIN, MAX)]
+        if node.k == "ConditionalOperator" and len(node.c) >= 3:
+            return ranges(node.c[1], bind, rng, fns, depth) + ranges(node.c[2], bind, rng, fns, depth)
+        if node.k in ("CXXConstructExpr", "CXXTemporaryObjectExpr", "CXXFunctionalCastExpr", "MaterializeTemporaryExpr", "CXXBindTemporaryExpr"):
+            a = [x for x in node.c if not x.strip().get("defarg")]
+            if len(a) == 1:
+                return ranges(a[0], bind, rng, fns, depth)
+            if len(a) == 2 and "IndexRange" in (node.callee or node.type or ""):
+                return [(ev(a[0], bind, rng), ev(a[1], bind, rng))]
+        if node.is_call() and node.k == "CallExpr" and (node.callee or "") in fns:
+            h = fns[node.callee]
+            args = node.call_args()
+            b2 = dict(bind)
+            for p_, a_ in zip(h.params, args):
+                b2[p_["d"]] = _Bound(a_, bind)
+            out = []
+            for r in h.walk():
+                if r.k == "ReturnStmt" and r.c:
+                    out += ranges(r.c[0], b2, rng, fns, depth + 1)
+            if out:
+                return out
+        raise _No("range expression `%s`" % key(node, True)[:80])
+
+    class _Bound:
+        """an argument node together with the binding of the caller it must be read in"""
+
+        def __init__(self, node, bind):
+            self.node, self.bind = node, bind
+
+        def strip(self):
+            n = self.node.strip()
+            while n.k == "DeclRefExpr" and n.get("dk") == "param" and n.get("d") in self.bind:
+                b = self.bind[n.get("d")]
+                n = b.strip()
+            return n
+
+    n = 0
+    for u in units:
+        fns = {}
+        for f in sorted(u.functions, key=lambda g: bool(g.is_dependent)):
+            if f.body is not None:
+                fns.setdefault(f.qn, f)
+        bycls = {}
+        for f in fns.values():
+            if f.short in ("get_influencing_indices", "get_influenced_indices") and len(f.params) == 2 and f.cls:
+                bycls.setdefault(f.cls, {})[f.short] = f
+        for cls, pair in sorted(bycls.items()):
+            if len(pair) != 2:
+                continue
+            alts = {}
+            try:
+                for name, f in pair.items():
+                    outp, rng = f.params[0]["d"], f.params[1]["d"]
+                    asg = [m for m in f.walk() if m.k in ("BinaryOperator", "CXXOperatorCallExpr") and m.op == "=" and len(m.c) >= 2 and m.c[0].strip().k == "DeclRefExpr" and m.c[0].strip().get("d") == outp]
+                    if len(asg) != 1:
+                        raise _No("%s: expected one assignment to the result range" % name)
+                    alts[name] = ranges(asg[0].c[-1], {}, rng, fns)
+            except _No as ex:
+                ctx.unrec(cls, "C19.g: %s" % ex)
+                continue
+            def offs(lst):
+                out = set()
+                for lo, hi in lst:
+                    a, b = sympy.expand(lo - MIN), sympy.expand(hi - MAX)
+                    if a.has(MIN, MAX) or b.has(MIN, MAX):
+                        raise _No("range bounds are not min + offset / max + offset")
+                    out.add((a, b))
+                return out
+            try:
+                infl_d, infl_g = offs(alts["get_influenced_indices"]), offs(alts["get_influencing_indices"])
+            except _No as ex:
+                ctx.unrec(cls, "C19.g: %s" % ex)
+                continue
+            want = {(sympy.expand(-b), sympy.expand(-a)) for a, b in infl_d}
+            ok = want == infl_g
+            f = pair["get_influencing_indices"]
+            ctx.ob(RULE, cls.split("<")[0], "influencing-vs-influenced", ok, f.where(), "influenced [a + A, b + B] for (A, B) in %s, influencing [a - B, b - A]" % sorted(map(str, infl_d)) if ok else "the two range functions are not dual: influenced offsets %s require influencing offsets %s, the code has %s - equal only for kernels with a symmetric index range; for the others the separable N-D filter skips input slices that contribute (or reads ones that do not)" % (sorted(map(str, infl_d)), sorted(map(str, want)), sorted(map(str, infl_g))))
+            n += 1
+    return n
+
+
+def rule_h_trivial_means_one_element_everywhere(ctx, units):
+    """is_trivial() lets do_it() copy the data instead of convolving.  For an N-dimensional kernel that is right only for a kernel of
+    one element (index 0, value 1) in EVERY dimension: the non-empty alternative of is_trivial() must test get_length() == 1 and
+    get_min_index() == 0 at each of the N nesting levels filter_coefficients, filter_coefficients[0], ... and compare the element with
+    N subscripts to 1 (F74: the 2D/3D filters tested the outermost level only)."""
+    RULE = "C19.h-trivial-only-for-the-one-element-kernel"
+    n = 0
+    for (cls, ndim), u in zip(CONV, units):
+        fs = [f for f in sorted(u.functions, key=lambda g: bool(g.is_dependent)) if f.short == "is_trivial" and f.body is not None and (f.cls or "").endswith(cls)]
+        if not fs:
+            ctx.unrec(cls, "C19.h: is_trivial() not found")
+            continue
+        f = fs[0]
+        rets = [m for m in f.walk() if m.k == "ReturnStmt" and m.c]
+        if len(rets) != 1:
+            ctx.unrec(f.qn, "C19.h: expected a single return expression")
+            continue
+        k_ = key(rets[0].c[0].strip())
+        missing = []
+        odd = []
+        for lvl in range(ndim):
+            base = "this.filter_coefficients" + "[0]" * lvl
+            tests = re.findall(r"\((==|!=|<|<=|>|>=) %s\.(\w+)\(\) ([0-9-]+)\)" % re.escape(base), k_)
+            has_len = any(op == "==" and m_ in ("get_length", "size") and v == "1" for op, m_, v in tests)
+            has_min = any(op == "==" and m_ == "get_min_index" and v == "0" for op, m_, v in tests) or (any(op == "==" and m_ == "get_min_index" and v == "0" for op, m_, v in tests) is False and any(op == "==" and m_ == "get_max_index" and v == "0" for op, m_, v in tests) and has_len)
+            if tests and not (has_len and has_min) and any(m_ not in ("get_length", "size", "get_min_index", "get_max_index") or op != "==" for op, m_, v in tests):
+                odd.append(base.replace("this.", ""))  # this level is tested, in a form the rule does not know
+                continue
+            if not has_len:
+                missing.append("%s.get_length() == 1" % base.replace("this.", ""))
+            if not has_min:
+                missing.append("%s.get_min_index() == 0" % base.replace("this.", ""))
+        if odd:
+            ctx.unrec(f.qn, "C19.h: nesting level(s) %s are tested in a form that is not recognised" % ", ".join(odd))
+            continue
+        elem = "this.filter_coefficients" + "[0]" * ndim
+        if not re.search(r"\(== %s 1(\.0)?\)" % re.escape(elem), k_):
+            missing.append("%s == 1" % elem.replace("this.", ""))
+        # the tests are conjuncts of ONE alternative: no `||` between them other than the empty-kernel alternative
+        alts = k_.count("(|| ")
+        ok = not missing and alts <= 1
+        ctx.ob(RULE, f.qn.split("<")[0], "%dD" % ndim, ok, f.where(), "one element (index 0, value 1) required at all %d nesting levels" % ndim if ok else "is_trivial() can be true for a kernel that is not the identity: missing test(s) %s%s - such a kernel is skipped (data copied, not filtered)" % (", ".join(missing), "; more than one `||` alternative" if alts > 1 else ""))
+        n += 1
+    return n
+
+
 def run(ctx):
     ctx.explanation = (
         "Decides two structural clauses: (a) in the direct-convolution filters (1D, 2D, 3D) the loop of every kernel index runs exactly over "
@@ -744,6 +917,14 @@ def run(ctx):
     rule_d_sign_passed_on(ctx, us[5].functions)
     rule_e_supported_lengths(ctx, us[5].functions)
     rule_f_kernel_sum_kept(ctx, us[6].functions + us[7].functions)
+    greqs = [Request(B + c + ".cxx", fn=["stir::.*"], files=["/repo/src/buildblock/%s\\.cxx" % c]) for c, _n in CONV]
+    ctx.ex.prefetch(greqs)
+    gus = [ctx.ex.get(r) for r in greqs]
+    if all(x is not None for x in gus):
+        rule_g_influence_ranges_dual(ctx, gus)
+        ctx.require_count("C19.g-influence-ranges-dual", 3)
+        rule_h_trivial_means_one_element_everywhere(ctx, gus)
+        ctx.require_count("C19.h-trivial-only-for-the-one-element-kernel", 3)
     ctx.require_count("C19.f-kernel-sum-kept-after-length-limit", 2)
     ctx.require_count("C19.e-transforms-accept-supported-lengths", 4)
     ctx.require_count("C19.d-sign-passed-on", 14)
